@@ -130,7 +130,7 @@ def run(ctx: Ctx) -> None:
 
 
 def minimise(ctx: Ctx, judge_fn: Any) -> None:
-    known = {k["key"] for k in ctx.known}
+    known = {k["key"] for k in ctx.known if k.get("status") == "open"}
     seen: set[str] = set()
     for v in list(ctx.violations):
         key = v["key"]
